@@ -139,6 +139,30 @@ def main(argv):
     for f in fails:
         k = is_known(known, prop_id, f)
         (kf if k else viol).append((f, k))
+    # stability: a failure that is not a listed finding is re-checked in isolation (one function, rlimit x4);
+    # if the obligation is discharged there, the first failure was solver instability, not a violation
+    unstable = []
+    if viol:
+        by_unit = {}
+        for f, _ in viol: by_unit.setdefault(f['unit'], []).append(f)
+        still = []
+        for upath, fs in by_unit.items():
+            u = next((x for x in res['units'] if x['path'] == upath), None)
+            if u is None or len(by_unit) > 12:
+                still += fs; continue
+            fn = upath.split('@')[0].split('::', 1)[1]
+            parts = fn.split('::')
+            if len(parts) == 3: fn = parts[0] + '::' + parts[2]
+            r2 = engine.build(verify_only=['push::' + u['mod']], verify_fn=fn, extra_args=['--rlimit', '300'])
+            if 'tool_error' in r2 or r2['tool'] or not ((r2.get('verified') or 0) + (r2.get('errors') or 0)):
+                still += fs; continue
+            again = set(x['oid'] for x in r2['fails'] if x['unit'] == upath)
+            for f in fs:
+                if f['oid'] in again or any(x['unit'] == upath and x['cls'] != 'post' for x in r2['fails']):
+                    still.append(f)
+                else:
+                    unstable.append(dict(unit=upath, obligation=f['oid'], note='failed in the whole-crate run (rlimit 30), discharged in isolation (rlimit 120)'))
+        viol = [(f, None) for f in still]
     # tool-level trouble inside the scope => undecided
     tool = list(res['tool'])
     rc = 0
@@ -179,6 +203,7 @@ def main(argv):
             print('TOOL-ERROR: %s' % t)
         rc = 2
     extra['canaries'] = canaries
+    extra['unstable'] = unstable
     write_evidence(prop_id, cfg, tier, seed, res, scope, obligations, fails, kf, viol, extra, time.time() - t0)
     if rc == 0:
         print('OK property=%s obligations=%d discharged=%d known_findings=%d units=%d (%s, verus %.1fs, cache %s)' % (
@@ -258,6 +283,7 @@ def write_evidence(prop_id, cfg, tier, seed, res, scope, obligations, fails, kf,
             bounded_stand_ins=extra.get('bounded', []),
             kani=extra.get('kani', []),
             vacuity_canaries=extra.get('canaries', []),
+            solver_instability_resolved=extra.get('unstable', []),
             explanation=cfg.get('explanation', ''),
         ),
         assumptions=cfg.get('assumptions', []) + GLOBAL_ASSUMPTIONS,
